@@ -133,12 +133,14 @@ pub fn corpus(tier: &str) -> Corpus {
         let vars: Vec<String> = (1..=n).map(|i| format!("$V{}", i)).collect();
         let facts: Vec<String> = (1..=n).map(|i| format!("t({}).", i)).collect();
         let goals: Vec<String> = (1..=n).map(|i| if i == n / 2 { "!".to_string() } else { format!("t($Y{})", i) }).collect();
-        c.queries += 9;
+        c.queries += 10;
         c.with_cut += 1;
         *c.families.entry("scale".into()).or_insert(0) += 1;
         c.lines.push(format!(
-            "next\tw({ints}) ;; w({vars}) ;; len([{ints}], $N) ;; p($Z) ;; app($X, $Y, [{few}]) ;; cutk($Z) ;; deepl($Z) ;; deepc({deepc}) ;; deepg($Z)\tw({vars}).\tdeepl($X) :- $X = {deepl}.\tdeepc($X) :- $X = {deepc}.\tdeepg($X) :- {deepg}.\tlen([], 0).\tlen([$_ | $T], $N) :- len($T, $M), $N = $M + 1.\tapp([], $L, $L).\tapp([$H | $T], $L, [$H | $R]) :- app($T, $L, $R).\t{facts}\tp($X) :- t($X), $X >= {n}.\tcutk($X) :- {goals}, t($X).\tcutk(0).",
+            "next\tw({ints}) ;; w({vars}) ;; len([{ints}], $N) ;; p($Z) ;; app($X, $Y, [{few}]) ;; cutk($Z) ;; chain($A, $B) ;; deepl($Z) ;; deepc({deepc}) ;; deepg($Z)\tw({vars}).\tchain($V1, $V{n}) :- {links}.\t{linkfacts}\tdeepl($X) :- $X = {deepl}.\tdeepc($X) :- $X = {deepc}.\tdeepg($X) :- {deepg}.\tlen([], 0).\tlen([$_ | $T], $N) :- len($T, $M), $N = $M + 1.\tapp([], $L, $L).\tapp([$H | $T], $L, [$H | $R]) :- app($T, $L, $R).\t{facts}\tp($X) :- t($X), $X >= {n}.\tcutk($X) :- {goals}, t($X).\tcutk(0).",
             ints = ints.join(", "),
+            links = (1..n).map(|i| format!("link($V{}, $V{})", i, i + 1)).collect::<Vec<_>>().join(", "),
+            linkfacts = (1..n).map(|i| format!("link({}, {}).", i, i + 1)).collect::<Vec<_>>().join("\t"),
             deepl = format!("{}a{}", "[".repeat(n), "]".repeat(n)),
             deepc = format!("{}a{}", "f(".repeat(n), ")".repeat(n)),
             deepg = format!("{}t($X){}", "(".repeat(n), ")".repeat(n)),
